@@ -15,6 +15,10 @@ def rots : List Float → Option (List (Rot Float))
   | a :: b :: c :: d :: f :: rest => (rots rest).map fun r => (⟨⟨a, b, c, d⟩, f == 1.0⟩ : Rot Float) :: r
   | _ => none
 
+def quats : List Float → List (Quat Float)
+  | a :: b :: c :: d :: rest => ⟨a, b, c, d⟩ :: quats rest
+  | _ => []
+
 def handle : List String → String
   | "brute" :: n1 :: n2 :: xs =>
     match n1.toNat?, n2.toNat?, parseAll parseFloat xs >>= rots with
@@ -42,6 +46,50 @@ def handle : List String → String
       | [m, n] => showFloat (bruteDotMis (rs.take k1) ((rs.drop k1).take k2) m n)
       | _ => "!err arity"
     | _, _, _ => "!err parse"
+  | "reduce" :: n1 :: n2 :: n3 :: xs =>
+    -- dis reduce <nl> <nr> <nn> <Gl …> <Gr …> <M> <normals: 4 floats each>
+    match n1.toNat?, n2.toNat?, n3.toNat?, parseAll parseFloat xs with
+    | some k1, some k2, some k3, some fs =>
+      if fs.length != 5 * (k1 + k2 + 1) + 4 * k3 then "!err arity" else
+      match rots (fs.take (5 * (k1 + k2 + 1))) with
+      | none => "!err parse"
+      | some rs =>
+        let ns := quats (fs.drop (5 * (k1 + k2 + 1)))
+        match rs.drop (k1 + k2) with
+        | [m] =>
+          match reduceZone (Scalar.dec 1 9) (rs.take k1) ((rs.drop k1).take k2) ns m with
+          | none => "!err empty"
+          | some r => showList showFloat r.q.toList ++ (if r.improper then " 1" else " 0") ++
+              (if insideRegion (Scalar.dec 1 9) ns r.q then " in" else " out")
+        | _ => "!err arity"
+    | _, _, _, _ => "!err parse"
+  | "reduce3" :: lp :: li :: rp :: ri :: a1 :: a2 :: a3 :: b1 :: b2 :: b3 :: nn :: xs =>
+    -- groups chosen by the model of get_proper_groups from (self, proper subgroup, Laue proper subgroup) of each side
+    match [a1, a2, a3, b1, b2, b3, nn].mapM String.toNat?, parseAll parseFloat xs with
+    | some [k1, k2, k3, m1, m2, m3, kn], some fs =>
+      let tot := k1 + k2 + k3 + m1 + m2 + m3
+      if fs.length != 5 * (tot + 1) + 4 * kn then "!err arity" else
+      match rots (fs.take (5 * (tot + 1))) with
+      | none => "!err parse"
+      | some rs =>
+        let Ls := rs.take k1
+        let Lp := (rs.drop k1).take k2
+        let Ll := (rs.drop (k1 + k2)).take k3
+        let Rs := (rs.drop (k1 + k2 + k3)).take m1
+        let Rp := (rs.drop (k1 + k2 + k3 + m1)).take m2
+        let Rl := (rs.drop (k1 + k2 + k3 + m1 + m2)).take m3
+        let pick (c : ProperChoice) (s p l : List (Rot Float)) := match c with
+          | .self => s | .proper => p | .laueProper => l
+        let ns := quats (fs.drop (5 * (tot + 1)))
+        match properGroups (lp == "1") (li == "1") (rp == "1") (ri == "1"), rs.drop tot with
+        | none, _ => "!err notimpl"
+        | some (cl, cr), [m] =>
+          match reduceZone (Scalar.dec 1 9) (pick cl Ls Lp Ll) (pick cr Rs Rp Rl) ns m with
+          | none => "!err empty"
+          | some r => showList showFloat r.q.toList ++ (if r.improper then " 1" else " 0") ++
+              (if insideRegion (Scalar.dec 1 9) ns r.q then " in" else " out")
+        | _, _ => "!err arity"
+    | _, _ => "!err parse"
   | _ => "!err bad-op"
 
 end Orix.Driver.Dis
